@@ -104,6 +104,11 @@ func c19Gen(tier string, seed int64) []fw.Case {
 		add(c19Desc{Kind: "write", Role: bothRoles[i%2], N: 40, Defl: i%3 == 0}, fmt.Sprintf("write/%s", bothRoles[i%2]))
 		add(c19Desc{Kind: "read", Role: bothRoles[i%2], N: 60, Defl: i%3 == 1}, fmt.Sprintf("read/%s", bothRoles[i%2]))
 	}
+	// long sequences on one connection
+	for i := 0; i < tierPick(tier, 4, 40); i++ {
+		add(c19Desc{Kind: "write", Role: bothRoles[i%2], N: 1200, Defl: i%4 < 2}, fmt.Sprintf("write-long/%s", bothRoles[i%2]))
+		add(c19Desc{Kind: "read", Role: bothRoles[i%2], N: 1200, Defl: i%4 >= 2}, fmt.Sprintf("read-long/%s", bothRoles[i%2]))
+	}
 	na := tierPick(tier, 40, 80)
 	for i := 0; i < na; i++ {
 		add(c19Desc{Kind: "alias", Role: bothRoles[i%2], N: 30, Conns: 8 + rng.Intn(9)}, fmt.Sprintf("alias/%s", bothRoles[i%2]))
